@@ -1,8 +1,12 @@
 // C22 — Cluster state machine: replay determinism and snapshot fidelity.
-// Explicit-state BFS over the real ClusterFSM.Apply / Snapshot / Persist / Restore.
+// Explicit-state BFS over the real ClusterFSM.Apply / Snapshot / Persist / Restore, followed by two
+// exhaustive product passes over the recorded reachable states:
+//   - snapshot timing  (Snapshot() handle at s, more commands applied, THEN Persist -> must still be s)
+//   - restore target   (snapshot of s restored onto an FSM that already replayed another history h')
 package main
 
 import (
+	"bytes"
 	"encoding/json"
 	"fmt"
 	"sort"
@@ -19,6 +23,15 @@ type scenario struct {
 	seed  []fsmx.Cmd
 	alpha []fsmx.Cmd
 	depth int
+	recs  [][]rec // recorded distinct reachable states, by depth
+}
+
+// rec is one distinct reachable state: its representative history and the bytes of an immediate
+// Snapshot+Persist taken in it.
+type rec struct {
+	hist []int
+	b    []byte
+	raw  string // un-normalised dump of the state itself
 }
 
 type pre struct {
@@ -42,7 +55,7 @@ func report(sc *scenario, oracle, keys string, hist []int) {
 	}
 	p := pre{oracle, keys, last}
 	mu.Lock()
-	if old, ok := reps[p]; !ok || len(hist) < len(old) {
+	if old, ok := reps[p]; !ok || fsmx.LessHist(hist, old) {
 		reps[p] = append([]int{}, hist...)
 		repsScen[p] = sc
 	}
@@ -67,11 +80,35 @@ func diffKeys(a, b fsmx.Dump) string {
 	return strings.Join(ks, ",")
 }
 
+// stateCtx is what the per-transition oracles need to know about the pre-state (computed once per state).
+type stateCtx struct {
+	d    fsmx.Dump
+	key  string
+	raw  string
+	b    []byte // immediate Snapshot+Persist in this state (nil if that failed)
+	rd   fsmx.Dump
+	rkey string // canonical state of b restored into a fresh FSM ("" if snapshot/restore failed)
+}
+
+func (c *stateCtx) faithful() bool { return c.b != nil && c.rkey == c.key }
+
+// ref returns the canonical state of the immediate snapshot restored into a fresh FSM (lazily for
+// contexts rebuilt from a recorded state).
+func (c *stateCtx) ref() (fsmx.Dump, string) {
+	if c.rkey == "" && c.b != nil {
+		if r, err := fsmx.RestoreFrom(c.b); err == nil {
+			c.rd, c.rkey = fsmx.Canon(r)
+		}
+	}
+	return c.rd, c.rkey
+}
+
 // stateOracles evaluates the per-state oracles on history hist and returns the violated classes.
-func stateOracles(sc *scenario, hist []int) map[string]bool {
+func stateOracles(sc *scenario, hist []int) (map[string]bool, *stateCtx) {
 	out := map[string]bool{}
 	f := fsmx.Replay(sc.alpha, sc.seed, hist)
 	d, key := fsmx.Canon(f)
+	ctx := &stateCtx{d: d, key: key, raw: fsmx.Raw(f)}
 	for _, mm := range fsmx.IndexMismatches(d) {
 		out["index-consistency|"+strings.SplitN(mm, ":", 2)[0]] = true
 	}
@@ -79,16 +116,17 @@ func stateOracles(sc *scenario, hist []int) map[string]bool {
 	b, err := fsmx.SnapshotBytes(f)
 	if err != nil {
 		out["snapshot-error|"+err.Error()] = true
-		return out
+		return out, ctx
 	}
 	r, err := fsmx.RestoreFrom(b)
 	if err != nil {
 		out["restore-error|"+err.Error()] = true
-		return out
+		return out, ctx
 	}
-	rd, rkey := fsmx.Canon(r)
-	if rkey != key {
-		out["snapshot-fidelity|"+diffKeys(d, rd)] = true
+	ctx.b = b
+	ctx.rd, ctx.rkey = fsmx.Canon(r)
+	if ctx.rkey != key {
+		out["snapshot-fidelity|"+diffKeys(d, ctx.rd)] = true
 	}
 	// snapshot at every proper prefix, then apply the rest
 	for k := 0; k < len(hist); k++ {
@@ -112,7 +150,7 @@ func stateOracles(sc *scenario, hist []int) map[string]bool {
 		}
 	}
 	count("prefix_splits", int64(len(hist)))
-	return out
+	return out, ctx
 }
 
 func failsWith(sc *scenario, class string) func([]int) bool {
@@ -121,43 +159,51 @@ func failsWith(sc *scenario, class string) func([]int) bool {
 			if len(h) == 0 {
 				return false
 			}
-			return transitionOracles(sc, h[:len(h)-1], h[len(h)-1])[class]
+			o, _, _ := transitionOracles(sc, h[:len(h)-1], h[len(h)-1], nil)
+			return o[class]
 		}
-		return stateOracles(sc, h)[class]
+		o, _ := stateOracles(sc, h)
+		return o[class]
 	}
 }
 
-// transitionOracles evaluates the per-transition oracles for hist --c-->.
-func transitionOracles(sc *scenario, hist []int, c int) map[string]bool {
+// transitionOracles evaluates the per-transition oracles for hist --c-->. It returns the violated
+// T: classes, the canonical key of the successor, and the snapshot-timing class ("" = held) of the
+// length-1 continuation c (handle taken in the pre-state, c applied, then Persist).
+func transitionOracles(sc *scenario, hist []int, c int, ctx *stateCtx) (map[string]bool, string, string) {
 	out := map[string]bool{}
+	if ctx == nil {
+		_, ctx = stateOracles(sc, hist)
+	}
 	idx := uint64(len(sc.seed) + len(hist) + 1)
 	cmd := sc.alpha[c]
 	f := fsmx.Replay(sc.alpha, sc.seed, hist)
-	pd, pkey := fsmx.Canon(f)
+	sn, snErr := fsmx.Handle(f) // handle taken in the pre-state, persisted only after the step
 	res := cmd.Apply(f, idx)
 	sd, skey := fsmx.Canon(f)
+	pit := ""
+	if snErr == nil && ctx.b != nil {
+		pit = judgeLate(ctx, sn, skey != ctx.key)
+	}
 	// same step from a restored snapshot of the pre-state (only judged when the restore itself was
 	// faithful; an unfaithful restore is the state oracle's finding, not this step's)
-	g := fsmx.Replay(sc.alpha, sc.seed, hist)
-	if b, err := fsmx.SnapshotBytes(g); err == nil {
-		if r, err := fsmx.RestoreFrom(b); err == nil {
-			if _, k0 := fsmx.Canon(r); k0 == pkey {
-				res2 := cmd.Apply(r, idx)
-				rd, rkey := fsmx.Canon(r)
-				if rkey != skey {
-					out["T:step-after-restore|"+diffKeys(sd, rd)] = true
-				}
-				if (res == nil) != (res2 == nil) {
-					out["T:result-after-restore"] = true
-				}
+	if ctx.faithful() {
+		if r, err := fsmx.RestoreFrom(ctx.b); err == nil {
+			res2 := cmd.Apply(r, idx)
+			rd, rkey := fsmx.Canon(r)
+			if rkey != skey {
+				out["T:step-after-restore|"+diffKeys(sd, rd)] = true
+			}
+			if (res == nil) != (res2 == nil) {
+				out["T:result-after-restore"] = true
 			}
 		}
 	}
 	if cmd.Batch {
 		_, isErr := res.(error)
 		if isErr {
-			if skey != pkey {
-				out["T:batch-partial-on-error|"+diffKeys(pd, sd)] = true
+			if skey != ctx.key {
+				out["T:batch-partial-on-error|"+diffKeys(ctx.d, sd)] = true
 			}
 		} else {
 			// success: must equal applying each member individually at the same log index
@@ -172,9 +218,246 @@ func transitionOracles(sc *scenario, hist []int, c int) map[string]bool {
 		}
 		count("batch_checks", 1)
 	}
+	return out, skey, pit
+}
+
+// ---- oracle: a snapshot is a point-in-time image ---------------------------------------------------
+//
+// hashicorp/raft calls FSM.Snapshot() while no Apply runs, and FSMSnapshot.Persist() later, on
+// another goroutine, concurrently with further Apply calls. So for state s and continuation c:
+// handle := Snapshot() in s; apply c to the SAME fsm; Persist(handle); Restore into a fresh FSM
+// must give s (not s+c, not a mixture).
+
+// judgeLate persists a handle taken in ctx's state after the FSM moved on, and compares with the
+// immediate snapshot of that state. Persist is json.Marshal (sorted keys), so byte-identical streams
+// restore identically and that restore was already judged by snapshot-fidelity in this state; only
+// a differing stream is restored and compared canonically (so a benign byte difference cannot alarm).
+func judgeLate(ctx *stateCtx, sn fsmx.Snapshot, mutated bool) string {
+	lb, err := fsmx.PersistHandle(sn)
+	count("pit_evaluations", 1)
+	if mutated {
+		count("pit_continuation_changed_state", 1)
+	}
+	if err != nil {
+		return "snapshot-not-point-in-time|late-persist-error"
+	}
+	if bytes.Equal(lb, ctx.b) {
+		return ""
+	}
+	count("pit_stream_differs_full_restore", 1)
+	r, err := fsmx.RestoreFrom(lb)
+	if err != nil {
+		return "snapshot-not-point-in-time|late-restore-error"
+	}
+	rd, rkey := fsmx.Canon(r)
+	if wd, wkey := ctx.ref(); rkey != wkey {
+		return "snapshot-not-point-in-time|" + diffKeys(wd, rd)
+	}
+	return ""
+}
+
+// pointInTime evaluates the oracle for (hist, cont) from scratch (used by the length-2 pass and by
+// the minimiser).
+func pointInTime(sc *scenario, hist, cont []int, ctx *stateCtx) string {
+	if ctx == nil {
+		_, ctx = stateOracles(sc, hist)
+	}
+	if ctx.b == nil {
+		return ""
+	}
+	f := fsmx.Replay(sc.alpha, sc.seed, hist)
+	sn, err := fsmx.Handle(f)
+	if err != nil {
+		return ""
+	}
+	idx := uint64(len(sc.seed) + len(hist))
+	for _, c := range cont {
+		idx++
+		sc.alpha[c].Apply(f, idx)
+	}
+	return judgeLate(ctx, sn, fsmx.Raw(f) != ctx.raw)
+}
+
+type pitCase struct {
+	sc         *scenario
+	hist, cont []int
+}
+
+var pitReps = map[pre]pitCase{}
+
+func kind(name string) string { return strings.SplitN(name, "(", 2)[0] }
+
+func reportPit(sc *scenario, class string, hist, cont []int) {
+	p := pre{class, "", kind(sc.alpha[cont[len(cont)-1]].Name)}
+	all := append(append([]int{}, hist...), cont...)
+	mu.Lock()
+	old, ok := pitReps[p]
+	if !ok || fsmx.LessHist(all, append(append([]int{}, old.hist...), old.cont...)) {
+		pitReps[p] = pitCase{sc, append([]int{}, hist...), append([]int{}, cont...)}
+	}
+	mu.Unlock()
+}
+
+// ---- oracle: Restore replaces the state, whatever the target held ---------------------------------
+//
+// InstallSnapshot on a lagging follower calls Restore on an FSM that already holds state. For the
+// snapshot of s and every target history h' (all reachable states up to a depth, the proper prefixes
+// of s's own history, and two "rich" targets holding every kind of object), the restored target must
+// be the same state as the snapshot restored into a fresh FSM (which snapshot-fidelity ties to s),
+// and the paginated manifest listing (sorted-key cache, warmed on the target before the restore)
+// must list exactly s's files.
+
+type target struct {
+	names []string
+	cmds  []fsmx.Cmd
+	raw   string // dump of the target before the restore (vacuity count: how often it held another state)
+}
+
+func mkTarget(sc *scenario, hist []int) target {
+	t := target{}
+	for _, c := range sc.seed {
+		t.cmds = append(t.cmds, c)
+	}
+	if len(sc.seed) > 0 {
+		t.names = append(t.names, "seed=hierarchy")
+	}
+	for _, h := range hist {
+		t.cmds = append(t.cmds, sc.alpha[h])
+		t.names = append(t.names, sc.alpha[h].Name)
+	}
+	return t
+}
+
+// richTargets hold objects of every kind, whatever the scenario's own alphabet can build.
+func richTargets() []target {
+	n := fsmx.NodeCmds([]string{"n1", "n2"}, map[string]string{"n1": "writer", "n2": "writer"})
+	byName := func(cs []fsmx.Cmd, name string) fsmx.Cmd {
+		for _, c := range cs {
+			if c.Name == name {
+				return c
+			}
+		}
+		panic("no command " + name)
+	}
+	fc, tc := fsmx.FileCmds(), fsmx.TokenCmds([]int64{1})
+	a := []fsmx.Cmd{byName(n, "AddNode(n1,writer)"), byName(n, "AddNode(n2,writer)"), byName(n, "Promote(n2)"), byName(n, "AssignCompactor(n2)"),
+		byName(fc, "Reg(P1,db2)"), byName(fc, "Reg(P2,db2)"), byName(tc, "CreateToken(b,p)")}
+	mk := func(cs []fsmx.Cmd) target {
+		t := target{cmds: cs}
+		for _, c := range cs {
+			t.names = append(t.names, c.Name)
+		}
+		return t
+	}
+	// the hierarchy goes first: its commands refer to ids stamped from log positions 1..8
+	out := []target{mk(append(append([]fsmx.Cmd{}, a...), byName(tc, "CreateToken(a,q)"))), mk(append(append([]fsmx.Cmd{}, fsmx.HierarchySeed()...), a...))}
+	for i := range out {
+		fsmx.Prepare(out[i].cmds)
+		f := fsmx.Build(out[i].cmds)
+		out[i].raw = fsmx.Raw(f)
+		d, _ := fsmx.Canon(f)
+		want := []string{"nodes", "primaryWriterID", "activeCompactorID", "files", "tokens"}
+		if i == 1 {
+			want = append(want, "organizations", "teams", "roles", "measurementPermissions", "tokenMemberships")
+		}
+		for _, k := range want {
+			if x, _ := json.Marshal(d[k]); len(x) <= 2 {
+				ev.Unbound("C22 rich restore target " + fmt.Sprint(i) + " holds no " + k + " (alphabet drifted)")
+			}
+		}
+	}
 	return out
 }
 
+type freshRef struct {
+	raw     string
+	d       fsmx.Dump
+	key     string
+	listing string
+}
+
+func mkFreshRef(b []byte) *freshRef {
+	fr, err := fsmx.RestoreFrom(b)
+	if err != nil {
+		return nil
+	}
+	ref := &freshRef{raw: fsmx.Raw(fr)}
+	ref.listing = strings.Join(fsmx.Listing(fr), ",")
+	return ref
+}
+
+// restoreOnto returns the violated classes of restoring snapshot bytes b (fresh-restore reference ref)
+// onto an FSM that replayed tcmds.
+func restoreOnto(b []byte, ref *freshRef, tcmds []fsmx.Cmd) []string {
+	t := fsmx.Build(tcmds)
+	fsmx.Listing(t) // the follower served a manifest listing before: sorted-key cache is populated
+	if err := fsmx.RestoreOnto(t, b); err != nil {
+		return []string{"restore-onto-nonfresh-error|" + err.Error()}
+	}
+	var out []string
+	if raw := fsmx.Raw(t); raw != ref.raw {
+		if ref.d == nil {
+			fr, _ := fsmx.RestoreFrom(b)
+			d, k := fsmx.Canon(fr)
+			ref.d, ref.key = d, k // ref belongs to one worker
+		}
+		td, tk := fsmx.Canon(t)
+		if tk != ref.key {
+			out = append(out, "restore-onto-nonfresh-differs|"+diffKeys(ref.d, td))
+		}
+	}
+	if l := strings.Join(fsmx.Listing(t), ","); l != ref.listing {
+		out = append(out, "restore-onto-nonfresh-stale-listing|")
+	}
+	return out
+}
+
+type ontoCase struct {
+	sc   *scenario
+	hist []int
+	tgt  target
+}
+
+var ontoReps = map[string]ontoCase{}
+
+func ontoLess(a, b ontoCase) bool {
+	if x, y := len(a.hist)+len(a.tgt.cmds), len(b.hist)+len(b.tgt.cmds); x != y {
+		return x < y
+	}
+	if len(a.hist) != len(b.hist) {
+		return len(a.hist) < len(b.hist)
+	}
+	if x, y := strings.Join(a.tgt.names, ";"), strings.Join(b.tgt.names, ";"); x != y {
+		return x < y
+	}
+	return fsmx.LessHist(a.hist, b.hist)
+}
+
+func reportOnto(class string, c ontoCase) {
+	mu.Lock()
+	if old, ok := ontoReps[class]; !ok || ontoLess(c, old) {
+		ontoReps[class] = c
+	}
+	mu.Unlock()
+}
+
+func ontoFails(sc *scenario, hist []int, tcmds []fsmx.Cmd, class string) bool {
+	f := fsmx.Replay(sc.alpha, sc.seed, hist)
+	b, err := fsmx.SnapshotBytes(f)
+	if err != nil {
+		return false
+	}
+	ref := mkFreshRef(b)
+	if ref == nil {
+		return false
+	}
+	for _, cl := range restoreOnto(b, ref, tcmds) {
+		if cl == class {
+			return true
+		}
+	}
+	return false
+}
 
 func main() {
 	run := ev.Start("C22", "model_checking")
@@ -194,15 +477,16 @@ func main() {
 	var perScenario []map[string]any
 	for _, sc := range scs {
 		sc := sc
+		fsmx.Prepare(sc.alpha)
+		fsmx.Prepare(sc.seed)
+		sc.recs = make([][]rec, sc.depth+1)
 		res := xstate.BFS(xstate.Config{NCmds: len(sc.alpha), MaxDepth: sc.depth, Stop: run.TimeUp,
 			Expand: func(hist []int, wantKey string, leaf bool, visit func(int, string)) {
-				f := fsmx.Replay(sc.alpha, sc.seed, hist)
-				_, key := fsmx.Canon(f)
-				key = fmt.Sprintf("%d|%s", len(hist), key)
+				viol, ctx := stateOracles(sc, hist)
+				key := fmt.Sprintf("%d|%s", len(hist), ctx.key)
 				if wantKey != "" && key != wantKey {
 					ev.Nondeterminism(fmt.Sprintf("C22 replay of %v produced a different state", fsmx.Names(sc.alpha, hist)))
 				}
-				viol := stateOracles(sc, hist)
 				var inh map[string]bool
 				if v, ok := inherit.Load(wantKey); ok {
 					inh = v.(map[string]bool)
@@ -212,6 +496,11 @@ func main() {
 						report(sc, cl, "", hist)
 					}
 				}
+				if ctx.b != nil {
+					mu.Lock()
+					sc.recs[len(hist)] = append(sc.recs[len(hist)], rec{hist: append([]int{}, hist...), b: ctx.b, raw: ctx.raw})
+					mu.Unlock()
+				}
 				if len(hist) == sc.depth {
 					samples.Add(fsmx.Names(sc.alpha, hist))
 				}
@@ -219,12 +508,13 @@ func main() {
 					return
 				}
 				for c := range sc.alpha {
-					for cl := range transitionOracles(sc, hist, c) {
+					tv, sk, pit := transitionOracles(sc, hist, c, ctx)
+					for cl := range tv {
 						report(sc, cl, "", append(append([]int{}, hist...), c))
 					}
-					g := fsmx.Replay(sc.alpha, sc.seed, hist)
-					sc.alpha[c].Apply(g, uint64(len(sc.seed)+len(hist)+1))
-					_, sk := fsmx.Canon(g)
+					if pit != "" {
+						reportPit(sc, pit, hist, []int{c})
+					}
 					sk = fmt.Sprintf("%d|%s", len(hist)+1, sk)
 					if len(viol) > 0 {
 						inherit.LoadOrStore(sk, viol)
@@ -235,10 +525,109 @@ func main() {
 		totalStates += res.States
 		totalTrans += res.Transitions
 		complete = complete && res.Complete
+		for _, l := range sc.recs { // deterministic order for the product passes
+			sort.Slice(l, func(i, j int) bool { return fsmx.LessHist(l[i].hist, l[j].hist) })
+		}
 		perScenario = append(perScenario, map[string]any{"scenario": sc.name, "alphabet": len(sc.alpha), "seed_len": len(sc.seed),
 			"depth": sc.depth, "states": res.States, "transitions": res.Transitions, "per_depth_frontier": res.PerDepth, "complete": res.Complete})
 		fmt.Printf("scenario %q: alphabet=%d depth=%d states=%d transitions=%d complete=%v\n", sc.name, len(sc.alpha), sc.depth, res.States, res.Transitions, res.Complete)
 	}
+
+	// ---- pass: snapshot timing with continuations of length 2 (thorough only; length 1 rode along with the BFS)
+	pitBound := "continuation length 1 from every state at depth < bound (all BFS transitions)"
+	if !quick {
+		pitBound = "continuation length 1 from every state at depth < bound, length 2 from every state at depth <= bound-2"
+		for _, sc := range scs {
+			var ss []rec
+			for d := 0; d <= sc.depth-2; d++ {
+				ss = append(ss, sc.recs[d]...)
+			}
+			n := len(sc.alpha)
+			ok := fsmx.ParallelFor(len(ss)*n, run.TimeUp, func(i int) {
+				s, c1 := ss[i/n], i%n
+				ctx := &stateCtx{b: s.b, raw: s.raw}
+				for c2 := 0; c2 < n; c2++ {
+					if cl := pointInTime(sc, s.hist, []int{c1, c2}, ctx); cl != "" {
+						reportPit(sc, cl, s.hist, []int{c1, c2})
+					}
+				}
+			})
+			complete = complete && ok
+			fmt.Printf("scenario %q: snapshot-timing length-2 pass over %d states x %d^2 continuations complete=%v\n", sc.name, len(ss), n, ok)
+		}
+	}
+
+	// ---- pass: restore onto a non-fresh FSM
+	// target depth allowed for a snapshot state at depth k: the product is triangular so that the
+	// many deepest states meet the fewer shallow targets.
+	tdepth := func(sc *scenario, k int) int {
+		rem := sc.depth - k + pick(quick, 0, 1) // quick: 0 for the deepest states
+		lim := pick(quick, 2, 3)
+		if rem < lim {
+			return rem
+		}
+		return lim
+	}
+	rich := richTargets()
+	var ontoBounds []map[string]any
+	for _, sc := range scs {
+		sc := sc
+		var tg [][]target // targets by depth
+		for d := 0; d <= sc.depth && d <= pick(quick, 2, 3); d++ {
+			var l []target
+			for _, r := range sc.recs[d] {
+				t := mkTarget(sc, r.hist)
+				t.raw = r.raw
+				l = append(l, t)
+			}
+			tg = append(tg, l)
+		}
+		var ss []rec
+		for d := 0; d <= sc.depth; d++ {
+			ss = append(ss, sc.recs[d]...)
+		}
+		var pairs int64
+		perDepth := map[int]int64{}
+		ok := fsmx.ParallelFor(len(ss), run.TimeUp, func(i int) {
+			s := ss[i]
+			ref := mkFreshRef(s.b)
+			if ref == nil {
+				return
+			}
+			td := tdepth(sc, len(s.hist))
+			var n, differs int64
+			try := func(t target) {
+				n++
+				if t.raw != s.raw {
+					differs++
+				}
+				for _, cl := range restoreOnto(s.b, ref, t.cmds) {
+					reportOnto(cl, ontoCase{sc, s.hist, t})
+				}
+			}
+			for d := 0; d <= td && d < len(tg); d++ {
+				for _, t := range tg[d] {
+					try(t)
+				}
+			}
+			for k := td + 1; k < len(s.hist); k++ { // the lagging follower: deeper proper prefixes of s's own history
+				try(mkTarget(sc, s.hist[:k]))
+			}
+			for _, t := range rich {
+				try(t)
+			}
+			mu.Lock()
+			pairs += n
+			checks["onto_target_held_another_state"] += differs
+			perDepth[len(s.hist)] += n
+			mu.Unlock()
+		})
+		complete = complete && ok
+		count("onto_evaluations", pairs)
+		ontoBounds = append(ontoBounds, map[string]any{"scenario": sc.name, "snapshot_states": len(ss), "pairs": pairs, "pairs_by_snapshot_depth": perDepth, "complete": ok})
+		fmt.Printf("scenario %q: restore-onto-nonfresh pass: %d snapshot states, %d (snapshot,target) pairs complete=%v\n", sc.name, len(ss), pairs, ok)
+	}
+
 	// minimise one representative per pre-class, then classify
 	for p, h := range reps {
 		sc := repsScen[p]
@@ -251,6 +640,54 @@ func main() {
 		run.Violate(p.oracle+"|"+seedNote+strings.Join(names, ";"), "oracle "+p.oracle+" fails after this command history (log index = position)",
 			map[string]any{"scenario": sc.name, "seed": cmdNames(sc.seed), "history": names, "found_at": fsmx.Names(sc.alpha, h)})
 	}
+	for p, c := range pitReps {
+		sc := c.sc
+		cont := c.cont
+		fails := func(h, ct []int) bool { return pointInTime(sc, h, ct, nil) == p.oracle }
+		if len(cont) == 2 {
+			if fails(c.hist, cont[1:]) {
+				cont = cont[1:]
+			} else if fails(c.hist, cont[:1]) {
+				cont = cont[:1]
+			}
+		}
+		min := ev.Minimize(c.hist, func(h []int) bool { return fails(h, cont) })
+		seedNote := ""
+		if len(sc.seed) > 0 {
+			seedNote = "seed=hierarchy;"
+		}
+		parts := append(append(append(fsmx.Names(sc.alpha, min), "<Snapshot()>"), fsmx.Names(sc.alpha, cont)...), "<Persist()>")
+		run.Violate(p.oracle+"|"+seedNote+strings.Join(parts, ";"),
+			"a snapshot handle taken after the commands before <Snapshot()> and persisted only after the following commands were applied to the same FSM does not restore to the state it was taken in (differing dump keys in the signature)",
+			map[string]any{"scenario": sc.name, "seed": cmdNames(sc.seed), "history_before_snapshot": fsmx.Names(sc.alpha, min), "applied_between_snapshot_and_persist": fsmx.Names(sc.alpha, cont),
+				"found_at": map[string]any{"history": fsmx.Names(sc.alpha, c.hist), "continuation": fsmx.Names(sc.alpha, c.cont)}})
+	}
+	for class, c := range ontoReps {
+		sc := c.sc
+		tc := c.tgt.cmds
+		minH := ev.Minimize(c.hist, func(h []int) bool { return ontoFails(sc, h, tc, class) })
+		idx := make([]int, len(tc))
+		for i := range idx {
+			idx[i] = i
+		}
+		sub := func(ix []int) []fsmx.Cmd {
+			var o []fsmx.Cmd
+			for _, i := range ix {
+				o = append(o, tc[i])
+			}
+			return o
+		}
+		minT := sub(ev.Minimize(idx, func(ix []int) bool { return ontoFails(sc, minH, sub(ix), class) }))
+		seedNote := ""
+		if len(sc.seed) > 0 {
+			seedNote = "seed=hierarchy;"
+		}
+		sNames := fsmx.Names(sc.alpha, minH)
+		run.Violate(class+"|snapshot-of="+seedNote+strings.Join(sNames, ";")+"|onto="+strings.Join(cmdNames(minT), ";"),
+			"the snapshot of the first history, restored onto an FSM that had already applied the second history, is not the state the snapshot was taken from (Restore into a fresh FSM is)",
+			map[string]any{"scenario": sc.name, "seed": cmdNames(sc.seed), "snapshot_of": sNames, "restored_onto": cmdNames(minT),
+				"found_at": map[string]any{"snapshot_of": fsmx.Names(sc.alpha, c.hist), "restored_onto": c.tgt.names}})
+	}
 	run.Coverage["states"] = totalStates
 	run.Coverage["transitions"] = totalTrans
 	run.Coverage["traces_validated_against_impl"] = totalTrans
@@ -258,9 +695,13 @@ func main() {
 	run.Coverage["exhaustive"] = complete
 	run.Coverage["scenarios"] = perScenario
 	run.Coverage["oracle_evaluations"] = checks
+	run.Coverage["snapshot_timing_bound"] = pitBound
+	run.Coverage["restore_onto_nonfresh"] = ontoBounds
+	run.Coverage["restore_onto_nonfresh_bound"] = fmt.Sprintf("snapshot of every recorded reachable state at depth k restored onto every reachable state of the same scenario at depth <= min(%d, bound-k+%d), onto every deeper proper prefix of its own history, and onto %d rich targets (nodes+primary+compactor+files+tokens, and the same plus the RBAC hierarchy)", pick(quick, 2, 3), pick(quick, 0, 1), len(rich))
 	run.Coverage["explanation"] = "every transition is a call of the real ClusterFSM.Apply on a fresh FSM after replaying the history; states de-duplicated by canonical dump of primaries+indexes (+ next log index)"
 	run.Assume("universe: 1 node, 2 file paths (+1 invalid), 2 databases, tokens a/b with shared prefix, 2-3 ids per RBAC entity type; depth bound per scenario as reported")
-	run.Assume("hashicorp/raft itself (log replication, snapshot scheduling) is not explored; the FSM is driven directly with committed logs")
+	run.Assume("hashicorp/raft itself (log replication, snapshot scheduling) is not explored; the FSM is driven directly with committed logs; its Snapshot()/Persist() split is modelled by persisting a handle after further Apply calls (sequentially: Persist racing an in-flight Apply at instruction level is a data-race question, not explored here)")
+	run.Assume("fsmSnapshot.Persist is a deterministic function of the handle (json.Marshal): a late-persisted stream byte-identical to the immediate one is not restored again")
 	run.Finish()
 }
 
